@@ -24,6 +24,10 @@ def chk(pid, level, text, note, technique, engine, ref):
     }
 
 checks = [
+ chk("C01", "exploration",
+     "For each seeded scenario the complete decision tree of the transition's internal random draws is enumerated with exact probabilities through a scripted generator (no sampling inside a scenario), for every start state in a window of a real integrator orbit; the stationarity equation, row sums, reported step counts and acceptance statistics are checked. Scenarios (systems, integrators, step sizes, settings, energy offsets) are a seeded sample.",
+     "Exactness is limited to tree depth <= 3 (4 thorough) and orbits in <= 3 dimensions; orbit states identified by nearest neighbour; scenarios whose trajectories hit integrator errors or fragile criterion margins are discarded and counted.",
+     "scripted random generator with exhaustive draw-tree enumeration per seeded scenario; conservation (stationarity) oracle", "E1 drawtree", "DESIGN.md section 4.1, 5 C01"),
  chk("C13", "exploration",
      "Seeded search over sampler configurations and simulated process schedules; every returned row, statistic and final state is compared bitwise with a ground-truth log written at the moment each transition returns; storage variants and the durable disk image are compared too. Sampling of a large configuration x schedule space, not a proof.",
      "Trusted: the recording proxies and the scheduler (self-tested for determinism); workers are threads isolated by pickling; durable image = content at last flush.",
